@@ -364,6 +364,9 @@ class HTTPApiDecoder:
 
         except (KeyError, ValueError, TypeError, json.JSONDecodeError, model.AASConstraintViolation) as e:
             raise UnprocessableEntity(str(e)) from e
+        except RecursionError as e:
+            # the document is nested deeper than the JSON parser can follow
+            raise UnprocessableEntity(f"The given JSON document can't be parsed: {e}") from e
 
         return [cls.assert_type(obj, expect_type) for obj in parsed]
 
